@@ -4,10 +4,10 @@ import core, gen, gen_units as G, canon, refs, e2e, trees
 from core import hx, unhx
 import props.c08 as c08
 
-LEAN_MODULE = 'QM.Props.C08'
-THEOREMS = ['Refine.C08_process_refines', 'Refine.C10_independent', 'Cv.C08_process_concrete', 'Cv.C10_independent_concrete', 'Cv.C08_order_irrelevant', 'Cv.sys_local', 'Cv.convOut_congr', 'Refine.C09_members_order_free', 'Cv.C08_priorities']
+LEAN_MODULE = 'QM.Props.C10Exit'
+THEOREMS = ['Cv.C10_exit_zero_iff', 'Cv.C10_exit_is_0_or_1', 'Cv.C10_exit_one_of_any_failure', 'Refine.C08_process_refines', 'Refine.C10_independent', 'Cv.C08_process_concrete', 'Cv.C10_independent_concrete', 'Cv.C08_order_irrelevant', 'Cv.sys_local', 'Cv.convOut_congr', 'Refine.C09_members_order_free', 'Cv.C08_priorities']
 ASSUMPTIONS = c08.ASSUMPTIONS + [
-    'discovery, the per-file error policy (continue), the exit status and the logged paths are runtime behaviour of main.rs; the model of the whole run (Cv.runTree, QM/Fs.lean: search dirs, first-seen-wins, drop-ins, priority sort, loop) is compared with real --dry-run runs of the binary on generated trees, and the property is checked on pairs of real runs',
+    'discovery, the per-file error policy (continue) and the logged paths are runtime behaviour of main.rs; the model of the whole run (Cv.runTree, QM/Fs.lean: search dirs, first-seen-wins, drop-ins, priority sort, loop; exit status = 1 iff some load, drop-in or conversion error, C10_exit_zero_iff) is compared with real --dry-run runs of the binary on generated trees — services, error counts and exit status — and the property is checked on pairs of real runs',
     'known finding KF-C10-1: two units whose generated service file names coincide overwrite each other on disk; statements are per unit (what --dry-run prints)',
 ]
 LEVEL_TEXT = ('Proof (abstract) + paired real runs: by C08_process_refines the result of a unit is its declarative result, which by C10_independent does not '
@@ -38,11 +38,11 @@ def correspond(ctx):
             continue
         if a['services']:
             res.corr_nontrivial.add(str(sorted(files)))
-        if 'bad' in b or any(a[k] != b[k] for k in ('services', 'load_errors', 'dropin_errors', 'conv_errors')):
+        if 'bad' in b or any(a[k] != b[k] for k in ('services', 'load_errors', 'dropin_errors', 'conv_errors', 'exit')):
             if len(res.corr_disagreements) < 10:
                 res.corr_disagreements.append(dict(op='tree', op_readable=dict(roots=roots, files=files),
-                                                   impl={k: a[k] for k in ('load_errors', 'dropin_errors', 'conv_errors', 'services')},
-                                                   model={k: b.get(k) for k in ('load_errors', 'dropin_errors', 'conv_errors', 'services', 'bad')}))
+                                                   impl={k: a[k] for k in ('exit', 'load_errors', 'dropin_errors', 'conv_errors', 'services')},
+                                                   model={k: b.get(k) for k in ('exit', 'load_errors', 'dropin_errors', 'conv_errors', 'services', 'bad')}))
         shutil.rmtree(os.path.dirname(roots[0]), ignore_errors=True)
     res.samples.append(dict(kind='correspondence-tree', files=cases[0][1]))
     ctx.log(f'correspondence (whole-run model vs --dry-run): {n} trees, {len(res.corr_disagreements)} disagreements')
